@@ -30,7 +30,7 @@ META = {
 
 
 META['explanation'] += ' Rounds 4-5: ' + 'R12 ISA05-08 / GS02-03 of both acknowledgements are the received receiver/sender, swapped (positions derived from the construction). R13 visit_seg of both visitors decided by constant propagation over code sets x element errors: one AK3/IK3 per standard code, at least one when the segment has element errors.'
-META['technique'] += '; conditional constant propagation over the CFG on finite, complete input domains (DESIGN.md 10.4.1)'
+META['technique'] = META.get('technique', 'static analysis: AST/CFG rules over /repo source + shipped XML data') + '; conditional constant propagation over the CFG on finite, complete input domains (DESIGN.md 10.4.1)'
 
 
 # --------------------------------------------------------------------------- R1
